@@ -155,9 +155,12 @@ def main():
         engines=[dict(name="tlc+snowverif", path="/verif/check",
                       serves_properties=sorted(CLAIMED),
                       kind_free_text="TLA+ specification (spec/) model-checked by TLC; scenarios replayed / traces validated "
-                                     "against /repo by the Rust harness (harness/)")],
+                                     "against /repo by the Rust harness (harness/), built twice from /repo's working tree: "
+                                     "default build (features ring-resolver,use-p256,use-xchacha20poly1305,risky-raw-split,"
+                                     "verif-hooks) and hfs build (plus hfs,use-pqcrypto-kyber1024; harness/target-hfs)")],
         checks=checks,
-        notes="exit 0 held / 1 VIOLATION (with replay file) / 2 tool error. Known findings: /verif/known_findings.json.",
+        notes="exit 0 held / 1 VIOLATION (with replay file) / 2 tool error. Known findings: /verif/known_findings.json. "
+              "C01-C03, C06-C08, C10-C14, C17, C19, C20 also run hfs-build legs (names with the hfs modifier and Kyber1024).",
         not_applicable=na)
     json.dump(m, open(os.path.join(ROOT, "MANIFEST.json"), "w"), indent=1)
     print(f"MANIFEST.json: {len(checks)} checks, {len(na)} not claimed")
